@@ -446,6 +446,16 @@ def directed():
                    ["dlv*", 1, 0, 1 - side, 99], ["tick", 0, []], ["tick", 1, []]]
         sl += [["dlv*", 1, 0, side, 99], ["send", snd, ["tcp", oth], 51, False, False], ["dlv*", 1, 0, side, 99], ["heal"]]
         S.append(("slow-link-" + nm, base, up + sl))
+    # reset in the middle of a LARGE frame (header and part of the body already read), then a re-dial: the dialling side
+    # re-uses its TcpConnection object, nothing of the torn frame may survive into the new connection
+    for k in (4, 30, 400, 1500):
+        S.append(("reset-mid-frame-then-redial-%d" % k, base,
+                  up + [["send", 0, ["tcp", 1], 80, False, False, 4000], ["frag*", 1, 0, 1, k],
+                        ["err*", 1, 0, "rst", False], ["err", 103, "eof", False], ["adv", 2048], ["tick", 1, []],
+                        ["syn_ok*", 1, 0], ["accept", 0], ["cev*", 1, 0, False, False], ["dlv*", 1, 0, 0, 99],
+                        ["send", 0, ["tcp", 1], 81, False, False], ["dlv*", 1, 0, 1, 99],
+                        ["send", 0, ["tcp", 1], 82, False, False, 1500], ["dlv*", 1, 0, 1, 99],
+                        ["send", 1, ["tcp", 0], 83, False, False], ["dlv*", 1, 0, 0, 99], ["heal"]]))
     # send() between the dial and the moment the connect is reported (SyncObj sends to every node whatever its state):
     # nothing may be written ahead of the own address
     S.append(("send-while-connecting", base,
@@ -673,7 +683,7 @@ def directed_c13():
         S.append(("garbage-first-frame-%d" % idx, base, hs + [["ssend", 0, ["arb", idx]], ["ssend", 0, ["unhash", 9]],
                                                                ["dlv", 0, 0, 99, False, False]]))
     for name, cfg, actions in directed():
-        if name.startswith("slow-link") or name == "handshake-batch":
+        if name.startswith(("slow-link", "reset-mid-frame")) or name == "handshake-batch":
             S.append((name, cfg, actions))
     return S
 
